@@ -287,6 +287,10 @@ func (f *frame) applyContract(callee *ssa.Function, con *Contract, args []Val, s
 			}
 			m0 := e0.Eval(con.Decreases.Expr).Term
 			c.oblige(st, f.path, "decr-rec", fmt.Sprintf("(and (>= %s 0) (< %s %s))", m0, mCall, m0), "recursive call decreases "+con.Decreases.Text, pos)
+		} else if con.Partial {
+			// "partial": the contract is a partial-correctness statement (frame, safety, postconditions of the
+			// calls that return); termination of the recursion is explicitly not claimed and is reported
+			c.assumed["partial correctness only: termination of the self-recursive "+con.FullKey()+" is not shown (contract marked partial)"] = true
 		} else {
 			c.oblige(st, f.path, "decr-rec", "false", "recursive call without a decreases measure (termination not shown)", pos)
 		}
